@@ -11,6 +11,8 @@ PROP = dict(
         dict(module="MCClientResp", cfg="MCClientResp_asbuilt_pool.cfg", expect_violation="InvRetained", timeout=300, workers=2),
         # client.New hands one package-level registry map to every Runtime: editing one Runtime shows through another (non-vacuity)
         dict(module="MCClientResp", cfg="MCClientResp_asbuilt_shared.cfg", expect_violation="InvIsolated", timeout=300, workers=2),
+        # a consumer's stream closer shared by all calls: the call that finishes closes the body another call is still reading (non-vacuity)
+        dict(module="MCClientResp", cfg="MCClientResp_asbuilt_closer.cfg", expect_violation="InvOwn", timeout=300, workers=2),
     ],
     gen=dict(module="GenClientResp", cfg=dict(quick="GenClientResp_quick.cfg", thorough="GenClientResp_thorough.cfg"), timeout=300),
     level_text="ClientResp states consumer selection declaratively (PickAllowed: the consumer registered for the response's media type, "
